@@ -28,18 +28,22 @@ def gen_layout(rng, depth=2):
     dirs = ["", "lib", "a", "a/b", "lib/x"]
     subs = {}
     order = []
+    crossed = rng.random() < 0.25      # a caller with the SAME parameter names passes them crosswise
     nleaf = rng.randint(1, 3)
     for k in range(nleaf):
         name = "leaf%d" % k
         modes = sorted(rng.sample([0, 1, 2, 3, 5, 8, 20, 33, 100], rng.randint(1, 3)))
-        params = rng.sample(["x", "phi", "ab", "a"], rng.randint(0, 2))
+        params = rng.sample(["x", "phi", "ab", "a"], 2 if crossed else rng.randint(0, 2))
         stmts = []
         mlist = list(modes)
         rng.shuffle(mlist)
         for m in mlist:                       # every mode is used; statement order is arbitrary
             args = []
             for _ in range(rng.randint(0, 2)):
-                if params and rng.random() < 0.6:
+                if len(params) == 2 and rng.random() < 0.4:
+                    # one argument mentioning both parameters (bound simultaneously, not one after the other)
+                    args.append(rng.choice(["3 * {%s} - {%s}", "{%s} + 2 * {%s}", "{%s} * {%s} + {%s}" % ("%s", "%s", params[0])]) % tuple(rng.sample(params, 2)))
+                elif params and rng.random() < 0.6:
                     p = rng.choice(params)
                     args.append(rng.choice(["{%s}", "2 * {%s}", "{%s} + 0.5", "{%s} / 4"]) % p)
                 else:
@@ -54,11 +58,16 @@ def gen_layout(rng, depth=2):
         subs[name] = Sub(name, os.path.join(rng.choice(dirs), name + ".xbb"), modes, params, stmts, [])
         order.append(name)
     nmid = rng.randint(0, 2) if depth >= 2 else 0
+    if crossed:
+        nmid = max(nmid, 1)
     for k in range(nmid):
         name = "mid%d" % k
         uses = rng.sample(order[:nleaf], rng.randint(1, min(2, nleaf)))
         modes = sorted(rng.sample([0, 1, 2, 4, 6, 9, 12, 40], rng.randint(2, 4)))
-        params = rng.sample(["t", "s"], rng.randint(0, 1))
+        # parameter names of the caller may coincide with (other) parameter names of the called template
+        params = rng.sample(["t", "s", "x", "phi", "a"], rng.randint(0, 2))
+        if crossed:
+            params = list(subs[uses[0]].params)
         stmts = []
         for u in uses:
             su = subs[u]
@@ -67,11 +76,25 @@ def gen_layout(rng, depth=2):
                     continue
                 call_modes = rng.sample(modes, len(su.modes))
                 kw = {}
+                if crossed and len(params) == 2 and set(su.params) == set(params):
+                    a, b = su.params
+                    kw[a] = rng.choice(["{%s}", "2 * {%s}", "{%s} + 1"]) % b
+                    kw[b] = rng.choice(["{%s}", "3 * {%s}", "{%s} - 1", "{%s} + {%s}" % ("%s", b)]) % a
+                    stmts.append(("call", u, call_modes, kw))
+                    continue
                 for p in su.params:
-                    kw[p] = ("{%s}" % params[0]) if (params and rng.random() < 0.3) else rng.choice([0.25, 1.5, 2, 3])
+                    if params and rng.random() < 0.5:
+                        q = rng.choice(params)
+                        kw[p] = rng.choice(["{%s}", "2 * {%s}", "{%s} + 1", "{%s} / 2"]) % q
+                        if len(params) == 2 and rng.random() < 0.3:
+                            kw[p] += " + {%s}" % params[1 - params.index(q)]
+                    else:
+                        kw[p] = rng.choice([0.25, 1.5, 2, 3])
                 stmts.append(("call", u, call_modes, kw))
         for m in modes:
             stmts.append(("op", rng.choice(GATES), [rng.choice(["0.1", "2"])] + (["{%s}" % params[0]] if params else []), [m]))
+        for q in params[1:]:
+            stmts.append(("op", "Rgate", ["{%s}" % q], [modes[0]]))
         rng.shuffle(stmts)
         subs[name] = Sub(name, os.path.join(rng.choice(dirs), name + ".xbb"), modes, params, stmts, uses)
         order.append(name)
